@@ -3,22 +3,35 @@ SPEC = {
     "lean_props": ["TunnoxModel.Props.C17"],
     "harness": {
         "pkg": "c17",
-        "shims": {"mapping": "internal/client/mapping", "conncode": "internal/cloud/services/conncode"},
+        "shims": {"mapping": "internal/client/mapping"},
         "runs": [{"args": [], "corpus": ""}],
     },
     "skip_model_prefix": ["free"],
     "rule": ("admissions and releases against the REAL code of every limit: SessionManager.CreateConnection (server-wide cap), "
-             "SessionManager.RegisterControlConnection -> ClientRegistry.Register (control cap, evict-oldest), TunnelRegistry.Register, "
+             "SessionManager.RegisterControlConnection -> ClientRegistry.Register (control cap, evict-oldest; `ctrlx`: the registry "
+             "itself with stream doubles whose Close() is a gate, so a registration can be stopped inside the Close() of its victim "
+             "while others run: caps 0,1,2,5 x occupancy cap-1, cap x 2-3 threads x 1-2 registrations, all interleavings), "
+             "TunnelRegistry.Register, the slot life cycle of the mapping handler (`slot` cases: the handler runs over a wrapper "
+             "of its real tunnel manager whose RegisterTunnel is a gate before and after, so Tunnel.Close can land before the "
+             "registration, in the window before Tunnel.Start, or after the start; all schedules of steps and closes of 2 "
+             "connections of length 6 (thorough 7), histories with 1-2 tunnels closed at each point of their life followed by "
+             "limit+1 complete openings, random schedules of up to limit+3 connections), "
              "BaseMappingHandler.handleConnection (per-mapping limit from the mapping config and from the user quota; real Tunnel objects "
              "over net.Pipe), conncode.Service.CreateConnectionCode over ConnectionCodeRepository over a gated memory storage (one step = "
              "one storage call) and ActivateConnectionCode with gated GetClientPortMappings/CreatePortMapping over the real port-mapping "
              "service and repository; gates force the schedule (GetConnectionID() of the fake reader between check and insert; every "
-             "storage call; the repo mutex is probed with TryLock so that a waiting request is a `blk` step); after EVERY step the "
+             "storage call / repository call; the harness names NO lock of the code under test: a granted thread that ends up parked "
+             "inside a sync lock of repo code is recognised from the goroutine dump, reported as `blk`, and advances by itself when "
+             "the holder unlocks - any locking scheme, or none, can be driven); after EVERY step the "
              "occupancy is read as an outside observer would (map sizes, live tunnels / slot counter, active codes / mappings in "
              "storage) and a digest of the whole state is compared around the steps of a refused request; exhaustive: 2-3 racing "
              "admissions x limits 0,1,2,3 x occupancy limit-1, limit, 0 x ALL interleavings of their atomic steps (code quota: every "
              "7th interleaving in quick), admissions racing releases; random: 1-6 threads, limits 0-5, programs of admits/releases, "
-             "bursty schedules; free-running: 2-8 requests released by one barrier at limit-1 without gates (mapping handlers are held "
+             "bursty schedules; N >= 3 racers (holder / waiter / newcomer): 3 activations of one client at occupancy limit-2 and "
+             "limit-1, alone and mixed with a request of another client, ALL interleavings (quick: all at limit 2 / occupancy 0, "
+             "sampled elsewhere; thorough: all), 4 requests sampled, code quota by random boundary interleavings of 3-5 requests, "
+             "3 and 4 racers for the other protocols exhaustively; free-running: 2-8 requests released by one spin barrier at "
+             "limit-2 / limit-1 without gates, repeated on fresh state (mapping handlers are held "
              "inside DialTunnel until all are decided, so max = simultaneously admitted); two service instances on one store (known "
              "finding); non-trivial = has threads; distinct = distinct case string"),
     "trusted_base": [
@@ -28,15 +41,21 @@ SPEC = {
         "TunnelRegistry.Register, acquireConnectionSlot, releaseConnectionSlot, connectionLimit, CountActiveByTargetClient and call "
         "skeletons with lock/defer/guarded-field facts of handleConnection, CreateConnectionCode, ActivateConnectionCode, "
         "ListByTargetClient, ConnectionCodeRepository.Create/GetByID/GetByCode regenerated into Gen/Limits.lean and pinned by theorems",
-        "harness /verif/harness/c17: gate, gated storage and repository wrappers, fake reader / client / adapter, TryLock probes of the "
-        "repo mutexes (shims in packages mapping and conncode)",
+        "shim BaseMappingHandler.VerifSetTunnelManager (installs the gated wrapper of the handler's own tunnel manager)",
+        "harness /verif/harness/c17: gate, gated storage and repository wrappers, fake reader / client / adapter, goroutine-dump "
+        "recognition of a thread parked in sync.Mutex/RWMutex of repo code (three consecutive dumps); one shim only: "
+        "BaseMappingHandler.VerifHandleConnection -> handleConnection",
+        "sync.Mutex.Unlock wakes waiters in arrival order when nobody else competes (decides which waiter the model advances; "
+        "a different order would show as a disagreement, not as a missed violation)",
         "sync.RWMutex / sync.Mutex / atomic.Int32.CompareAndSwap / the memory storage's single calls are atomic (one model step each)",
     ],
     "assumptions": [
         "WF: the initial occupancy is within the cap (capOk limit pre); limit 0 means unlimited for the session caps, the tunnel "
         "registry and the mapping handler (`> 0 &&` guard, extracted) and means 'nothing allowed' for the two conncode quotas (no guard "
         "in the source; the model follows the source)",
-        "quotas (code, mapq): proved for any number of concurrent requests to ONE service instance; two instances on one store "
+        "quotas (code, mapq): serialisation hypothesis of the proof = one mutex per service instance around count+check+create "
+        "(pinned by the skeletons of CreateConnectionCode / ActivateConnectionCode); proved for any number of concurrent requests "
+        "(own and other clients) to ONE service instance; two instances on one store "
         "exceed the quota: known finding quota-multi-node (witness theorem)",
         "code quota: the model takes the count from the index read (GetList); the n record reads that follow are no-ops. A release "
         "(delete) that lands between the index read and the record read of the same code makes the implementation count one fewer "
@@ -44,8 +63,19 @@ SPEC = {
         "mapping handler: the harness cannot stop between Load and CompareAndSwap; that granularity is covered by the theorem "
         "C17_mapCas and by the pinned control skeleton of acquireConnectionSlot, and exercised only by the free-running cases",
         "release of a mapping slot is asynchronous (the tunnel winds down on its own goroutines): the harness waits up to 2 s for "
-        "the occupancy to drop before it reads it",
+        "the occupancy to drop before it reads it; the occupancy of a mapping is its number of live tunnels (exported tunnel "
+        "manager) - the private slot counter is not read, a leaked slot shows up as a later refusal the model does not predict",
+        "ctrlx: while a registration is stopped inside the registry's critical section no observer can read the registry (it "
+        "would wait for the lock); the harness then reports what it knows without the lock (connections whose Register returned "
+        "nil and whose stream no eviction has closed) - on the code as it is this coincides with the registry whenever both "
+        "can be read; the theorem C17_ctrlX is for programs of registrations only, one critical section (pinned: "
+        "lock_sections_ClientRegister); the two-section variant has the witness C17_ctrl_twoSections_witness",
+        "injectable calls that are NOT gated: the Close() of the stream of a connection refused late by CreateConnection (it runs "
+        "after the lock was released and after the refusal is decided), loggers",
         "expiry of codes / mappings, storage faults and the stale-connection sweep are outside this property's quantifier",
+        "slot cases: the counter activeConnCount itself is not read (private); theorem C17_slot_counter proves 0 <= count <= "
+        "limit on the model, the harness sees a negative counter through its consequence (an acquisition while `limit` slots are "
+        "held, then more than `limit` live tunnels)",
         "internal/stream/quota_enforcer.go enforces traffic quotas only (no count limits) and is not modelled",
         "free-running cases are decided by holdsFree (cap on the maximum and on the final occupancy, bookkeeping, no state change "
         "when everything was refused); they are observed, not proved",
